@@ -220,7 +220,7 @@ class C13Src(SrcWorld):
 def configs(tier):
     dst, src = [], []
     L = 2
-    sizes = (L + 1, 2 * L + 1) if tier == "quick" else (1, L, L + 1, 2 * L, 2 * L + 1)
+    sizes = (L + 1, 2 * L, 2 * L + 1) if tier == "quick" else (1, L, L + 1, 2 * L, 2 * L + 1, 3 * L)
     for size, cl, closure, cks in itertools.product(sizes, (1, 2, 3), (False, True), ("crc32", "crc32c")):
         if tier == "quick" and cks == "crc32c" and (cl != 2 or size != L + 1):
             continue
